@@ -1,11 +1,9 @@
 module verif
 
-go 1.21
+go 1.22.0
 
-require (
-	github.com/fluffle/goirc v0.0.0
-	golang.org/x/net v0.18.0
-	golang.org/x/tools v0.29.0
-)
+toolchain go1.23.5
+
+require golang.org/x/tools v0.29.0
 
 replace github.com/fluffle/goirc => /repo
